@@ -202,7 +202,11 @@ def run(tier):
                    detail={"table": got, "vendor": want, "file": fname},
                    sample={"device": dev, "field": fld, "table": got, "vendor file": fname, "declared": vals[pragma]} if got == want else None)
     rep.count("vendor files naming a table row", matched)
-    rep.count("vendor files naming no table row (information)", len(missing))
+    rep.count("vendor files naming no table row", len(missing))
+    for dev in sorted(set(missing)):
+        rep.ob("C12.partfile|device-known|%s" % dev, False,
+               "the shipped part-definition file for %s cannot be used: its own `.device %s` line fails with `unknown device`, so no capacity is enforced for the part it describes" % (dev, dev))
+    rep.ob("C12.partfile|device-known", not missing, "every shipped part-definition file names a device of the table (%d files)" % matched, nontrivial=False)
     rep.floor("vendor files matched to rows", matched, 45)
 
     partfiles_parse(P, facts.repo, rep)
